@@ -38,9 +38,20 @@ def shared_user_table(rng, zero_prob=0.1):
     return _tables[key]
 
 
+_locs = {}
+
+
+def shared_loc(t):
+    if t not in _locs:
+        _locs[t] = dc.Location(*t)
+    return _locs[t]
+
+
 def main():
     job = json.load(sys.stdin)
     batch = job["batch"]
+    if batch.get("share_locations"):
+        hard.mkloc = shared_loc
     if batch.get("share_tables", True):
         hard.user_table = shared_user_table
         problems.hard.user_table = shared_user_table
